@@ -6,8 +6,8 @@ def harness_job(ctx, idx, variant, args):
     """args: dict of vh bool options (without --out)."""
     return {"idx": idx, "variant": variant, "args": dict(args), "out": ctx.path("bool_%03d.ndjson" % idx)}
 
-def run_jobs(ctx, jobs, sub="bool"):
-    exes = {v: core.build(v) for v in sorted({j["variant"] for j in jobs})}
+def run_jobs(ctx, jobs, sub="bool", fams=("bool",)):
+    exes = {v: core.build(v, fams) for v in sorted({j["variant"] for j in jobs})}
     def one(j):
         cmd = [exes[j["variant"]], sub]
         for k, v in j["args"].items():
@@ -28,17 +28,20 @@ def tally(ctx, jobs):
             ev = json.loads(line)
             e = ev["e"]
             if e == "Case":
-                case = ev; outs_in_case = 0
+                case = ev; outs_in_case = 0; ctx.traces += 1
                 if len(ctx.samples) < 3:
                     ctx.sample({"fam": ev.get("fam"), "emb": ev["emb"], "subj": ev["subj"], "clip": ev["clip"], "npts": len(ev["pts"]), "variant": j["variant"]})
             elif e == "Exec":
+                ctx.evaluations += 1
+            elif e == "Execs":
+                ctx.evaluations += len(ev["x"])
+            elif e in ("ReUnion", "Tree", "Xform"):
                 ctx.evaluations += 1
             elif e == "Out":
                 # non-trivial: a non-empty solution that is not simply the (embedded) input; distinct by content
                 if ev["n"] > 0 and case is not None:
                     key = json.dumps([case["subj"], case["clip"], case["emb"], ev.get("paths", ev["cover"])])
                     ctx.nontrivial.add(hash(key))
-        ctx.traces += 1
 
 def validate(ctx, jobs, cfg="BoolTrace.cfg", module="BoolTrace"):
     files = [j["out"] for j in jobs]
@@ -71,7 +74,7 @@ def replay_rec(rec, prop):
     with open(inf, "w") as f:
         f.write(json.dumps({"subj": rec["case"]["subj"], "clip": rec["case"]["clip"]}) + "\n")
     a = dict(rec["harness"]["args"]); a.update({"fam": "in", "in": inf, "emb": rec["case"]["emb"], "n": 0, "skip": 0, "stride": 1})
-    exe = core.build(rec["harness"]["variant"])
+    exe = core.build(rec["harness"]["variant"], tuple(rec["harness"].get("fams", ["bool"])))
     cmd = [exe, rec["harness"].get("sub", "bool")]
     for k, v in a.items():
         cmd += ["--" + k, str(v)]
